@@ -25,6 +25,7 @@ DEPS = {
  'dialout': ['dialout', 'fresh'],
  'count': ['count', 'fresh'],
  'orph_virt': ['orph_virt', 'fresh', 'children', 'virt'],
+ 'incall': ['incall', 'mem_room'],
 }
 ALL = list(DEPS)
 
